@@ -3,16 +3,7 @@
 //!   zv worker <Cxx> <tier> [--only d:i] worker (in-process search)
 //!   zv replay <file>                   re-judge a saved case
 //!   zv selftest                        reference components against published vectors
-mod alloc;
-mod engine;
-mod props;
-mod util;
-pub mod refzip;
-pub mod sio;
-pub mod gen;
-pub mod genf;
-pub mod seeds;
-pub mod robust;
+use zipverif::{alloc, engine, props, util};
 
 use engine::{Ctx, Mode, Tier};
 use std::process::{Command, Stdio};
@@ -91,6 +82,30 @@ fn main() {
         "replay" => {
             util::install_panic_hook();
             std::process::exit(props::replay_file(&args[2], true));
+        }
+        "dump-corpus" => {
+            // seed corpus for the libFuzzer campaigns: seed archives + repository fixtures
+            let dir = std::path::PathBuf::from(&args[2]);
+            std::fs::create_dir_all(&dir).expect("corpus dir");
+            for (i, s) in zipverif::seeds::small_seeds().iter().enumerate() {
+                std::fs::write(dir.join(format!("seed-{i:02}-{}.zip", s.name)), &s.bytes).expect("write");
+            }
+            for (n, b) in zipverif::seeds::repo_fixtures() {
+                std::fs::write(dir.join(format!("fixture-{n}")), &b).expect("write");
+            }
+            std::process::exit(0);
+        }
+        "mkreplay" => {
+            // wrap a libFuzzer artifact into a replay file and re-judge it without the fuzzer
+            util::install_panic_hook();
+            let bytes = std::fs::read(&args[3]).expect("artifact");
+            let root = std::env::var("ZV_ROOT").unwrap_or_else(|_| "/verif".into());
+            let path = format!("{root}/replays/{}/fuzz-{:08x}.json", args[2], util::hash_of(&bytes[..]) as u32);
+            let _ = std::fs::create_dir_all(format!("{root}/replays/{}", args[2]));
+            let doc = serde_json::json!({"property": args[2], "driver": "fuzz_raw", "seed": seed(), "tier": "thorough",
+                "message": format!("libFuzzer artifact {}", args[3]), "case": {"bytes": util::hex(&bytes)}});
+            std::fs::write(&path, serde_json::to_vec_pretty(&doc).unwrap()).expect("write replay");
+            std::process::exit(props::replay_file(&path, true));
         }
         "selftest" => {
             util::install_panic_hook();
